@@ -30,6 +30,7 @@ class Ctx:
         self.prop, self.tier, self.seed = prop, tier, seed
         self.rng = random.Random(seed * 1000003 + int(hashlib.sha1(prop.encode()).hexdigest()[:6], 16))
         self.t0 = time.time()
+        self._sweep_stale()
         self.scratch = tempfile.mkdtemp(prefix='qsv-%s-' % prop)
         self.violations = []      # dicts: clause, replay path, nofail(bool)
         self.known = []           # KNOWN-FINDING lines
@@ -40,6 +41,20 @@ class Ctx:
         self.unshown = []         # theorem names / correspondences no longer checking
         self.driver = None
         self.findings = load_findings().get(prop, [])
+
+    @staticmethod
+    def _sweep_stale():
+        """scratch directories of runs that were killed (they could not clean up) are removed after 3 hours"""
+        tmp = tempfile.gettempdir()
+        now = time.time()
+        for n in os.listdir(tmp):
+            if n.startswith('qsv-'):
+                p = os.path.join(tmp, n)
+                try:
+                    if now - os.path.getmtime(p) > 3 * 3600:
+                        shutil.rmtree(p, ignore_errors=True)
+                except OSError:
+                    pass
 
     def quick(self):
         return self.tier == 'quick'
